@@ -52,7 +52,7 @@ type Sim struct {
 	FiredSteps  []int
 	FiredOps    []int    // CurOp at the time each fault fired
 	FiredFns    []string // attributed /repo function of each faulted call
-	ReadBudget  int // 0 = unlimited; counts all read steps
+	ReadBudget  int      // 0 = unlimited; counts all read steps
 	Reads       int
 	Writes      int
 	Syncs       int
